@@ -573,7 +573,7 @@ func TestVerif_C38_Probe(t *testing.T) {
 	// quick: bases A1 and A3 get all single changes, all option-option pairs and a seeded sample
 	// of the other pairs, A2 and A4 the single changes; thorough: every pair on A1 and A3, single
 	// changes and option-option pairs on A2 and A4
-	pairSample := verifkit.EnvInt("C38_PAIRS", verifkit.Pick(40, 1<<30))
+	pairSample := verifkit.EnvInt("C38_PAIRS", verifkit.Pick(25, 1<<30))
 	var probes []c38Probe
 	baseDir := map[string]string{}
 	for _, bn := range baseNames {
